@@ -365,10 +365,25 @@ class ApiRuntime:
         if self.dead is not None:
             return False, None, {'dead': self.dead}
         kind = op[0]
+        m, st, t = self.m, self.st, self.task
         if not self.st.can(op):
+            if kind in ('FAR', 'NEAR') and len(op) > 2 and 'x' in op[2]:
+                # a premature field request (before the first compute, or
+                # after a frequency change without compute): caller error.
+                # It raises or works on stale currents; its own result is
+                # not judged, but it must not influence anything later.
+                self.poison()
+                try:
+                    if kind == 'FAR':
+                        do_far(m, t['fars'][op[1]])
+                    else:
+                        do_near(m, t['nears'][op[1]])
+                    S.fired('premature_field_request_ran')
+                except Exception:
+                    S.fired('premature_field_request_raised')
+                return True, None, {'premature': True}
             return False, None, {'skipped': 'precondition'}
         self.poison()
-        m, st, t = self.m, self.st, self.task
         info = {}
         try:
             if kind == 'SET_F':
@@ -661,7 +676,7 @@ def run_history(plan, start=0, disk_files=None, positions=None, apistates=None):
                 changed = rt.check_held()
                 if changed:
                     rec['held_changed'] = changed
-                if kind in ('COMPUTE', 'FAR', 'NEAR'):
+                if kind in ('COMPUTE', 'FAR', 'NEAR') and not info.get('premature'):
                     rt.hold_results(kind)
             if not executed and info.get('dead') and info['dead'][0] == 'BUILD' \
                     and not getattr(rt, 'dead_reported', False):
